@@ -119,6 +119,10 @@ def range_rule(f, rep, b):
         ok_al = ai.is_mult(st, g, CL)
         rep.ob('C11.1', 'cluster offset passed at %s is cluster aligned' % where, ok_al, ai.show(st, g))
         ok_lo = ai.prove_le(st, vo, g)
+        w_ = ai.walks.get(g)
+        if not ok_lo and w_ is not None:
+            # an iterator over start..stop: offset <= start <= what it yields
+            ok_lo = ai.prove_le(st, vo, w_[1]) and ai.prove_le(st, w_[1], g)
         rep.ob('C11.1', 'cluster offset passed at %s is not below the caller\'s offset' % where, ok_lo, '')
         end_c = ai.mk_bin('Add', g, cs)
         sat = ('max', ('c', 0), ('min', ('c', (1 << 64) - 1), ai.mk_bin('Add', vo, ln)))
@@ -147,6 +151,12 @@ def range_rule(f, rep, b):
                 if any(r[4][1] == Pv for r in calls):
                     cur = (cell, Pv, v)
         if cur is None:
+            # a `for` loop over (start..stop).step_by(cluster_size): the iterator is the cursor
+            walks = [ai.walks.get(r[4][1]) for r in calls]
+            if walks and all(w is not None and w[0] == 'stepby' and ai.pow2_shift(r[5], w[3]) is not None
+                             and ai.strip(r[5], ai.pow2_shift(r[5], w[3])) == CL for w, r in zip(walks, calls)):
+                rep.ob('C11.8', 'loop at %s' % b.where(h), True, 'step_by(cluster size) iterator handed to the per-cluster routine')
+                continue
             rep.ob('C11.8', 'loop at %s' % b.where(h), False, 'the loop cursor is not what is passed to the per-cluster routine')
             rep.violation('C11.8', 'C11.8:discard:cursor', b.where(h), 'the discard walk does not pass its cursor to __discard_one_cluster')
             continue
@@ -220,11 +230,42 @@ def dominance_rule(f, P, rep, b):
             if found is not None:
                 break
         ok = found is not None and all(b.dominates(found, m[0]) for m in muts)
+        if not ok:
+            # the decision may be carried in a value (e.g. an Option returned from a block and matched later): decide by
+            # abstract interpretation of the routine with the guard forced - no mutating call may be reachable
+            reached = _mutators_reachable_under(f, b, fn)
+            if reached is not None and not reached:
+                ok = True
+                found = found if found is not None else 0
+                rep.ob('C11.3', 'no-op exit "%s" precedes every mutation' % what, True,
+                       'with %s forced no mutating call is reachable (abstract interpretation)' % fn)
+                continue
         rep.ob('C11.3', 'no-op exit "%s" precedes every mutation' % what, ok,
                'decision at %s dominates %d mutating calls' % (b.where(found), len(muts)) if ok else 'no such decision dominates every mutation')
         if not ok:
             rep.violation('C11.3', 'C11.3:__discard_one_cluster:%s' % fn, b.where(found if found is not None else 0),
                           '__discard_one_cluster can mutate (unmap / release / punch) a cluster that is %s: such clusters must keep their content' % what)
+
+
+def _mutators_reachable_under(f, b, guard_fn):
+    """mutating calls of the routine that are reachable when the guard function says "nothing to do";
+    None when the guard is not called at all"""
+    from ..absint import AbsInt
+    forced = {'is_zero': ('c', 1), 'is_compressed': ('c', 1), 'allocation': ('opt', 'Option', ('c', 0), ('c', 0))}[guard_fn]
+    if not any((t.get('fn') or '').endswith('::' + guard_fn) for _bi, t in b.calls()):
+        return None
+    ai = AbsInt(f)
+    hit = set()
+    ai.hooks['::' + guard_fn] = lambda ai_, st, frame, b_, bi, t, args: forced
+
+    def seen(ai_, st, frame, b_, bi, t, args):
+        if frame[0] is None:
+            hit.add((bi, t.get('fn')))
+        return None
+    for m in MUTATORS:
+        ai.hooks[m] = seen
+    ai.analyze(b.path)
+    return hit
 
 
 # --------------------------------------------------------------------------- C11.4
@@ -324,12 +365,21 @@ def fallback_rule(f, P, rep):
             continue
         if any(x[0] == 'fn' and x[1].endswith('::call_write') for x in d):
             continue
-        # a test of the discriminant of the request's Result: value 1 = Err
-        errt = [x['t'] for x in st['ts'] if int(x['v']) == 1]
-        if len(st['ts']) == 1 and int(st['ts'][0]['v']) == 0:
-            errt = [st['o']]
-        if not errt or not _is_result_discr(f, b, st):
-            continue
+        is_ok = any(x[0] == 'fn' and x[1].endswith('Result::<T, E>::is_ok') for x in d)
+        is_err = any(x[0] == 'fn' and x[1].endswith('Result::<T, E>::is_err') for x in d)
+        if is_ok != is_err and b.ty(st['d']['pl']['l']).get('p') == 'bool' if st['d']['k'] in ('copy', 'move') else False:
+            # `if res.is_ok()` / `if res.is_err()`: the Err edge is the false / true edge of the bool
+            zero_t = [x['t'] for x in st['ts'] if int(x['v']) == 0]
+            false_t = zero_t[0] if zero_t else st['o']
+            true_t = st['o'] if zero_t else [x['t'] for x in st['ts'] if int(x['v']) != 0][0]
+            errt = [false_t] if is_ok else [true_t]
+        else:
+            # a test of the discriminant of the request's Result: value 1 = Err
+            errt = [x['t'] for x in st['ts'] if int(x['v']) == 1]
+            if len(st['ts']) == 1 and int(st['ts'][0]['v']) == 0:
+                errt = [st['o']]
+            if not errt or not _is_result_discr(f, b, st):
+                continue
         n += 1
         esc = [r for r in b.reachable(errt[0], avoid=good) if b.blocks[r]['term']['k'] == 'return' and not b.blocks[r]['cleanup']]
         if errt[0] in good:
